@@ -485,3 +485,246 @@ Fixpoint run (st : shell) (ops : list op) : result shell :=
 
 Definition run_from (rss : list rung_system) (md : mode) (ops : list op) : result shell :=
   match shell_init rss md with Ok st => run st ops | Error e => Error e end.
+
+(* ---- DEHB: DifferentialEvolutionHyperbandBracket / ...BracketManager ------- *)
+(* dehb_bracket.py, dehb_bracket_manager.py.  Same bracket skeleton, but: every rung is a list of
+   (None, None) slots from the start; on_result does not compare trial ids (the base class
+   _assert_on_result_trial_id does nothing) and overwrites the slot's trial id; a completed rung does
+   not promote (_promote_trials_at_rung_complete returns []); the scheduler asks for the best
+   entries of the rung below (top_list_for_previous_rung / top_of_previous_rung) and for the trial
+   in the parent slot (trial_id_from_parent_slot).  The mutation / cross-over arithmetic of
+   dehb.py is not modelled.  The cache _top_list_of_previous_rung_cache only stores
+   top_list_for_previous_rung of a rung that can no longer change and is left out. *)
+
+Definition dehb_new_bracket (rs : rung_system) (m : mode) : bracket :=
+  mkB m 0 0 (map (fun x => Filled (repeat (None, None) (fst x)) (snd x)) rs).
+
+Definition dehb_bracket_on_result (b : bracket) (r : slot_in_rung)
+  : result (bracket * option (list tid)) :=
+  if negb (Nat.eqb (rung_index r) (current_rung b)) then Error ERungIndex else
+  let pos := slot_index r in
+  if negb (Nat.ltb pos (first_free_pos b)) then Error ESlotIndex else
+  match current_rung_and_level b with
+  | Error e => Error e
+  | Ok (sl, ms) =>
+  if negb (Z.eqb (level r) ms) then Error ELevel else
+  match nth_error sl pos with
+  | None => Error EInternal
+  | Some (_, mv0) =>
+  match mv0 with
+  | Some _ => Error EOccupied
+  | None =>
+  match metric_val r with
+  | None => Error EMetricMissing
+  | Some v =>
+      let sl' := upd sl pos (trial_id r, Some v) in
+      let rungs1 := upd (rungs b) (current_rung b) (Filled sl' ms) in
+      let is_complete :=
+        Nat.leb (length sl') (first_free_pos b) && Nat.eqb (count_pending sl' (first_free_pos b)) 0 in
+      if is_complete then
+        let b2 := mkB (bmode b) 0 (S (current_rung b)) rungs1 in
+        if is_bracket_complete b2 then Ok (b2, None) else Ok (b2, Some [])
+      else Ok (mkB (bmode b) (first_free_pos b) (current_rung b) rungs1, None)
+  end end end end.
+
+Definition size_of_current_rung (b : bracket) : result nat :=
+  match current_rung_and_level b with Ok (sl, _) => Ok (length sl) | Error e => Error e end.
+
+Definition trial_id_for_slot (b : bracket) (ri si : nat) : result tid :=
+  match nth_error (rungs b) ri with
+  | Some (Filled sl _) => match nth_error sl si with Some (t, _) => Ok t | None => Error EInternal end
+  | _ => Error EInternal
+  end.
+
+(* assert self.current_rung > 0, "Current rung is base rung" *)
+Definition top_list_for_previous_rung (b : bracket) : result (list tid) :=
+  if Nat.eqb (current_rung b) 0 then Error ERungIndex else
+  match nth_error (rungs b) (current_rung b - 1), size_of_current_rung b with
+  | Some (Filled prev _), Ok n =>
+      match occupied_values prev with
+      | Some vals => Ok (fst (get_top_list (bmode b) vals n))
+      | None => Error EInternal
+      end
+  | _, Error e => Error e
+  | _, _ => Error EInternal
+  end.
+
+(* bracket_rungs = [rungs_first_bracket[offset:] for offset in range(num_brackets_per_iteration)] *)
+Definition dehb_bracket_rungs (first : rung_system) (nb : nat) : list rung_system :=
+  map (fun off => skipn off first) (seq 0 nb).
+
+Definition dehb_create_new_bracket (m : mgr) : result (mgr * nat) :=
+  if negb (Nat.eqb (length (m_brackets m)) (length (m_offsets m))) then Error EInternal else
+  let bid := length (m_brackets m) in
+  let off := Nat.modulo bid (length (m_rs m)) in
+  Ok (mkM (m_rs m) (m_mode m)
+          (m_brackets m ++ [dehb_new_bracket (nth off (m_rs m) []) (m_mode m)])
+          (m_offsets m ++ [off]) (m_primary m), bid).
+
+Definition dehb_mgr_init (first : rung_system) (md : mode) (nb : option nat) : result mgr :=
+  let max_off := length first in
+  if Nat.eqb max_off 0 then Error EBadRungs else
+  let n := match nb with Some k => k | None => max_off end in
+  if negb (Nat.leb 1 n && Nat.leb n max_off) then Error EBadRungs else
+  let rss := dehb_bracket_rungs first n in
+  if check_bracket_rungs rss then
+    match dehb_create_new_bracket (mkM rss md [] [] 0) with
+    | Ok (m, bid) => Ok (set_primary m bid)
+    | Error e => Error e
+    end
+  else Error EBadRungs.
+
+Definition dehb_next_job (m : mgr) : result (mgr * (nat * slot_in_rung)) :=
+  let n := length (m_brackets m) in
+  match try_brackets (m_brackets m) (seq (m_primary m) (n - m_primary m)) with
+  | Error e => Error e
+  | Ok (Some (bs', i, s)) => Ok (set_brackets m bs', (i, s))
+  | Ok None =>
+      match dehb_create_new_bracket m with
+      | Error e => Error e
+      | Ok (m1, bid) =>
+      match nth_error (m_brackets m1) bid with
+      | None => Error EInternal
+      | Some b =>
+          match next_free_slot b with
+          | Error e => Error e
+          | Ok (_, None) => Error ENoFreeSlot
+          | Ok (b', Some s) => Ok (set_brackets m1 (upd (m_brackets m1) bid b'), (bid, s))
+          end
+      end
+      end
+  end.
+
+Definition dehb_mgr_on_result (m : mgr) (bid : nat) (r : slot_in_rung)
+  : result (mgr * option (list tid)) :=
+  let n := length (m_brackets m) in
+  if negb (Nat.leb (m_primary m) bid && Nat.ltb bid n) then Error EBracketId else
+  match nth_error (m_brackets m) bid with
+  | None => Error EInternal
+  | Some b =>
+      match dehb_bracket_on_result b r with
+      | Error e => Error e
+      | Ok (b', tnp) =>
+          let bs' := upd (m_brackets m) bid b' in
+          let m1 := set_brackets m bs' in
+          if Nat.eqb bid (m_primary m) then
+            let p' := advance_primary n bs' (m_primary m) (n - 1) in
+            let m2 := set_primary m1 p' in
+            match nth_error bs' p' with
+            | None => Error EInternal
+            | Some bp =>
+                if is_bracket_complete bp
+                then match dehb_create_new_bracket m2 with
+                     | Ok (m3, nid) => Ok (set_primary m3 nid, tnp)
+                     | Error e => Error e
+                     end
+                else Ok (m2, tnp)
+            end
+          else Ok (m1, tnp)
+      end
+  end.
+
+Definition mgr_size_of_current_rung (m : mgr) (bid : nat) : result nat :=
+  match nth_error (m_brackets m) bid with Some b => size_of_current_rung b | None => Error EInternal end.
+
+(* top_of_previous_rung(bracket_id, pos) *)
+Definition top_of_previous_rung (m : mgr) (bid pos : nat) : result tid :=
+  match nth_error (m_brackets m) bid with
+  | None => Error EInternal
+  | Some b =>
+      match top_list_for_previous_rung b with
+      | Error e => Error e
+      | Ok top => match nth_error top pos with Some t => Ok t | None => Error EInternal end
+      end
+  end.
+
+(* _parent_rung[(offset, level)] = (bracket_delta, rung_index); for offset 0 the code stores
+   bracket_delta = num_bracket_offsets - rung_index, which is <= 0 when the rung index reaches the
+   number of brackets per iteration (an integer, so Z here) *)
+Fixpoint index_of_level (rs : rung_system) (lv : Z) (i : nat) : option nat :=
+  match rs with
+  | [] => None
+  | (_, l) :: r => if Z.eqb l lv then Some i else index_of_level r lv (S i)
+  end.
+Definition parent_rung (m : mgr) (off : nat) (lv : Z) : option (Z * nat) :=
+  match index_of_level (nth off (m_rs m) []) lv 0 with
+  | None => None
+  | Some ri => if Nat.eqb off 0 then Some ((Z.of_nat (length (m_rs m)) - Z.of_nat ri)%Z, 0%nat)
+               else Some (1%Z, S ri)
+  end.
+
+(* trial_id_from_parent_slot: while trial_id is None and bracket_id > 0.
+   A bracket id outside [0, #brackets) is an Error (IndexError; a negative index would wrap around
+   in Python — it does not occur); running out of fuel stands for a loop that does not end. *)
+Fixpoint parent_slot_loop (fuel : nat) (m : mgr) (bid : nat) (lv : Z) (si : nat) : result tid :=
+  match fuel with
+  | O => Error EInternal
+  | S f =>
+      if Nat.eqb bid 0 then Ok None else
+      match nth_error (m_offsets m) bid with
+      | None => Error EInternal
+      | Some off =>
+          match parent_rung m off lv with
+          | None => Error EInternal                      (* KeyError *)
+          | Some (delta, ri) =>
+              let bid'z := (Z.of_nat bid - delta)%Z in
+              if Z.ltb bid'z 0 then Error EInternal else
+              let bid' := Z.to_nat bid'z in
+              match nth_error (m_brackets m) bid' with
+              | None => Error EInternal                  (* IndexError *)
+              | Some b =>
+                  match trial_id_for_slot b ri si with
+                  | Error e => Error e
+                  | Ok (Some t) => Ok (Some t)
+                  | Ok None => parent_slot_loop f m bid' lv si
+                  end
+              end
+          end
+      end
+  end.
+Definition trial_id_from_parent_slot (m : mgr) (bid : nat) (lv : Z) (si : nat) : result tid :=
+  parent_slot_loop (S (S (length (m_brackets m)))) m bid lv si.
+
+(* DEHB event sequences on the bracket manager: DNext = a request for work (the job is remembered
+   as outstanding); DRet i t v = the (i mod #outstanding)-th outstanding job returns with trial id t
+   (DEHB assigns the trial id of every job itself) and metric v (NaN = failed). *)
+Inductive dop := DNext | DRet (i : nat) (t : Z) (v : mval).
+Record dstate := mkD { d_mgr : mgr; d_out : list job }.
+
+Fixpoint remove_nth {A} (l : list A) (i : nat) : list A :=
+  match l, i with
+  | [], _ => []
+  | _ :: r, O => r
+  | x :: r, S j => x :: remove_nth r j
+  end.
+
+Definition dstep (st : dstate) (o : dop) : result dstate :=
+  match o with
+  | DNext =>
+      match dehb_next_job (d_mgr st) with
+      | Ok (m', j) => Ok (mkD m' (d_out st ++ [j]))
+      | Error e => Error e
+      end
+  | DRet i t v =>
+      match d_out st with
+      | [] => Ok st
+      | _ =>
+          let k := Nat.modulo i (length (d_out st)) in
+          match nth_error (d_out st) k with
+          | None => Error EInternal
+          | Some (bid, s) =>
+              match dehb_mgr_on_result (d_mgr st) bid
+                      (mkSIR (rung_index s) (level s) (slot_index s) (Some t) (Some v)) with
+              | Ok (m', _) => Ok (mkD m' (remove_nth (d_out st) k))
+              | Error e => Error e
+              end
+          end
+      end
+  end.
+Fixpoint drun (st : dstate) (ops : list dop) : result dstate :=
+  match ops with
+  | [] => Ok st
+  | o :: r => match dstep st o with Ok st' => drun st' r | Error e => Error e end
+  end.
+Definition drun_from (first : rung_system) (md : mode) (nb : option nat) (ops : list dop) : result dstate :=
+  match dehb_mgr_init first md nb with Ok m => drun (mkD m []) ops | Error e => Error e end.
